@@ -65,7 +65,7 @@ func (w *SimWriter) sendHeader() {
 // (a compressor shared between two responses does that) is recorded, never followed: the yield is
 // always the running task's own.
 func (w *SimWriter) here(site Site) {
-	t := Cur()
+	t := Own()
 	if t == nil {
 		return
 	}
@@ -199,16 +199,20 @@ type SimBody struct {
 	Fired   int
 	Reads   int
 	Closed  int
+	OnRead  func(k int) // called before the k-th Read (1-based) is served: a place to cancel the request's context
 }
 
 func (b *SimBody) Read(p []byte) (int, error) {
-	if t := Cur(); t != nil && b.T != nil {
+	if t := Own(); t != nil && b.T != nil {
 		if t != b.T {
 			t.Ev("foreign-body-use", "", b.T.ID)
 		}
 		t.Y(SiteBRead)
 	}
 	b.Reads++
+	if b.OnRead != nil {
+		b.OnRead(b.Reads)
+	}
 	limit := len(b.Data)
 	if b.Mode != BFaultNone && b.FaultAt < limit {
 		limit = b.FaultAt
